@@ -366,7 +366,7 @@ func (d *D) check(sc *core.Scenario, ctx *core.Ctx) *core.Violation {
 		if o.hostPanic != "" {
 			return &core.Violation{Oracle: "no-host-panic", Signature: "host-panic:" + o.topFrame + ":" + sigOf(o.hostPanic),
 				Expected: "execution ends by normal completion, a documented Evy panic, exit, a failed test or an external stop – never by crashing the host runtime",
-				Observed: map[string]any{"panic": trunc(o.hostPanic, 300), "top_evy_frame": o.topFrame, "stdin": sc.Stdin, "stdin_chunks": sc.StdinChunks, "stdout_so_far": trunc(o.stdout, 300)},
+				Observed: map[string]any{"panic": trunc(o.hostPanic, 300), "top_evy_frame": o.topFrame, "stdin": trunc(sc.Stdin, 200), "stdin_bytes": len(sc.Stdin), "stdin_chunks": len(sc.StdinChunks), "stdout_so_far": trunc(o.stdout, 300)},
 				Match:    map[string]string{"outcome": "host-panic", "top_evy_frame": o.topFrame, "value": sigOf(o.hostPanic)}}
 		}
 		if strings.Contains(o.stderr, "internal error") {
@@ -491,6 +491,11 @@ func (d *D) Shrink(sc *core.Scenario) []*core.Scenario {
 		if sc.StdoutFault != "" {
 			c := sc.Clone()
 			c.StdoutFault, c.StdoutLimit = "", 0
+			out = append(out, c)
+		}
+		if len(sc.Stdin) > 64 {
+			c := sc.Clone()
+			c.Stdin, c.StdinChunks = sc.Stdin[len(sc.Stdin)/4:], nil
 			out = append(out, c)
 		}
 		for _, s := range []string{"", "x", "x\n"} {
